@@ -914,7 +914,7 @@ def gen_mutation_sequences(rng, n, seeds):
                     text = None
             ev = {"k": "raw", "path": path, "db": db, "ctype": ctype, "body": body, "enc": enc, "kind": kind,
                   "measure": kind == "mp" and not enc}
-            if text is not None:
+            if text is not None and not (enc and kind == "imptle"):     # a compressed multipart body is not a valid import
                 ev["text"] = text
             evs.append(ev)
             if rng.random() < 0.25:
